@@ -5,6 +5,9 @@ package main
 // results and the ParseFloat / Pow oracle tables recorded.
 
 import (
+	"fmt"
+	"math/big"
+
 	"verifharness/internal/hx"
 )
 
@@ -26,8 +29,76 @@ var c09Pools = pxPools{
 	orders:    []string{"first", "first", "alpha", "num", "num", "num", "fixed"},
 }
 
+// c09SuffixValues: for prefix letter number li of "kKMGTPEZY" (exponent e), the
+// suffixed spellings (SI and IEC, with and without b/B, several mantissas) and
+// plain numbers of comparable magnitude (1000^e, 1024^e, their neighbours and
+// multiples, the adjacent powers), as digit strings and in e-notation.
+func c09SuffixValues(li int) []string {
+	letters := "kKMGTPEZY"
+	p := string(letters[li])
+	e := li
+	if li == 0 {
+		e = 1
+	}
+	var vs []string
+	for _, m := range []string{"1", "2", "1.5", ".5", "999", "1001", "1023", "1025"} {
+		for _, suf := range []string{"", "i", "B", "b", "iB", "ib"} {
+			vs = append(vs, m+p+suf)
+		}
+	}
+	pw := func(base int64, e int) *big.Int {
+		return new(big.Int).Exp(big.NewInt(base), big.NewInt(int64(e)), nil)
+	}
+	for _, base := range []int64{1000, 1024} {
+		for _, ee := range []int{e - 1, e, e + 1} {
+			if ee < 0 || ee > 9 {
+				continue
+			}
+			x := pw(base, ee)
+			vs = append(vs, x.String())
+			if ee == e {
+				one := big.NewInt(1)
+				vs = append(vs, new(big.Int).Sub(x, one).String(), new(big.Int).Add(x, one).String(),
+					new(big.Int).Mul(x, big.NewInt(2)).String(), new(big.Int).Mul(x, big.NewInt(999)).String(),
+					new(big.Int).Div(new(big.Int).Mul(x, big.NewInt(3)), big.NewInt(2)).String(),
+					new(big.Int).Div(x, big.NewInt(2)).String())
+			}
+		}
+	}
+	vs = append(vs, fmt.Sprintf("1e%d", 3*e), fmt.Sprintf("1.5e%d", 3*e), fmt.Sprintf("2e%d", 3*e), "0", "1", "NaN", "x", "1"+p+"x", "y2"+p+"i")
+	return vs
+}
+
+// c09SuffixCase: one num-ordered plain key and one num-ordered name key fed from vals.
+func c09SuffixCase(o *hx.Out, r *hx.Rng, vals []string, n int, tag string) error {
+	e1 := &pxExpr{Fields: []pxSpec{{Key: "sz", Order: "num"}}}
+	e2 := &pxExpr{Fields: []pxSpec{{Key: "/size", Order: "num"}, {Key: ".config", Order: "num"}}}
+	e1.Text = pxText(e1.Fields, r)
+	e2.Text = pxText(e2.Fields, r)
+	var st []pxResult
+	perm := make([]int, len(vals))
+	for i := range perm {
+		perm[i] = i
+	}
+	for j := len(perm) - 1; j > 0; j-- {
+		k := r.Intn(j + 1)
+		perm[j], perm[k] = perm[k], perm[j]
+	}
+	for i := 0; i < n; i++ {
+		v := vals[perm[i%len(perm)]]
+		res := pxResult{Name: "X/size=" + r.Pick(vals), Units: []string{"sec/op"}}
+		res.Config = append(res.Config, [3]string{"sz", v, "file"})
+		if r.Chance(0.5) {
+			res.Config = append(res.Config, [3]string{"w", r.Pick(vals), "file"})
+		}
+		st = append(st, res)
+	}
+	o.Count("suffix " + tag)
+	return pxProtoCase(o, r, []*pxExpr{e1, e2}, st, [][]int{{0, 1}}, true)
+}
+
 func genC09(o *hx.Out, r *hx.Rng, tier string, replay string) error {
-	o.Rule = "as C08 (one ProjectionParser per run; proto: 2-4 expressions, Residue, every result through every projection; free: random interleavings), with projections mixing the orders first/alpha/num/fixed (fixed lists with repeated words) over value pools on which the comparators tie on distinct strings (1, 1.0, 1e0, 0x1p0, 1k/1000, 1Ki/1024, NaN/nan, -0/0, unparseable words, 12abc/x12, out-of-range 1e400, ...), values appearing late and missing values; observables: Less matrix over all Keys of each projection, SortKeys of the identity, reversed, two random arrangements and a random sub-slice; oracle: strconv.ParseFloat of every value and of every maximal [0-9.] run in it, math.Pow(1000|1024, 0..8). non-trivial = every case"
+	o.Rule = "as C08 (one ProjectionParser per run; proto: 2-4 expressions, Residue, every result through every projection; free: random interleavings), with projections mixing the orders first/alpha/num/fixed (fixed lists with repeated words) over value pools on which the comparators tie on distinct strings (1, 1.0, 1e0, 0x1p0, 1k/1000, 1Ki/1024, NaN/nan, -0/0, unparseable words, 12abc/x12, out-of-range 1e400, ...), values appearing late and missing values; observables: Less matrix over all Keys of each projection, SortKeys of the identity, reversed, two random arrangements and a random sub-slice; plus, for every prefix letter k K M G T P E Z Y, a sweep of all spellings (mantissas 1 2 1.5 .5 999 1001 1023 1025; SI and IEC; with and without b/B) next to plain numbers of comparable magnitude (1000^e, 1024^e, +-1, multiples, adjacent powers, e-notation) in num-ordered plain/name/.config fields, and random mixtures across letters; oracle: strconv.ParseFloat of every value and of every maximal [0-9.] run in it, math.Pow(1000|1024, 0..8). non-trivial = every case"
 	pl := &c09Pools
 	mul := 1
 	if tier == "thorough" {
@@ -38,6 +109,27 @@ func genC09(o *hx.Out, r *hx.Rng, tier string, replay string) error {
 		es := pl.exprSet(r, n)
 		st := pl.stream(r, r.Range(5, 40))
 		if err := pxProtoCase(o, r, es, st, pxSomePerms(r, n, 1+i%2), true); err != nil {
+			return err
+		}
+	}
+	// every suffix letter: a sweep of all its spellings next to plain numbers of
+	// comparable magnitude, then random mixtures across letters
+	var all []string
+	for li := 0; li < 9; li++ {
+		vs := c09SuffixValues(li)
+		all = append(all, vs...)
+		for rep := 0; rep < mul; rep++ {
+			if err := c09SuffixCase(o, r, vs, len(vs), "sweep "+string("kKMGTPEZY"[li])); err != nil {
+				return err
+			}
+		}
+	}
+	for i := 0; i < 30*mul; i++ {
+		var vs []string
+		for j := 0; j < 24; j++ {
+			vs = append(vs, r.Pick(all))
+		}
+		if err := c09SuffixCase(o, r, vs, r.Range(12, 40), "mixed"); err != nil {
 			return err
 		}
 	}
